@@ -259,3 +259,48 @@ Proof.
     rewrite (IHx d (depth + 1) (pos + nlen (nlen (print_ty t) :: print_ty t ++ [0])) rest) by (rewrite ?Hpos2; assumption || lia).
     pos_eq. unfold nlen. cbn [length]. rewrite !app_length. cbn [length]. lia.
 Qed.
+
+(* ---- fuel: a well-formed value is at most 65 - depth levels high ------------------ *)
+Lemma wfsb_heights le : forall vs depth pos,
+  Forall (fun v => forall depth pos, wfb le depth pos v = true -> N.of_nat (height v) + depth <= 65) vs ->
+  wfsb le vs depth pos = true -> vs <> [] -> N.of_nat (heights vs) + depth <= 65.
+Proof.
+  induction vs as [|x r IH]; intros depth pos HF Hw Hne; [congruence|].
+  inversion HF as [|? ? Hx Hr]; subst. cbn [wfsb] in Hw. apply andb_true_iff in Hw. destruct Hw as [Hwx Hwr].
+  rewrite heights_cons. specialize (Hx _ _ Hwx).
+  destruct r as [|y r'].
+  - cbn [heights fold_right]. lia.
+  - specialize (IH depth _ Hr Hwr ltac:(discriminate)). lia.
+Qed.
+
+Lemma wfb_height le : forall v depth pos, wfb le depth pos v = true -> N.of_nat (height v) + depth <= 65.
+Proof.
+  induction v as [c n|c s|et vs IH|fs IH|k x IHk IHx|t x IHx] using val_ind'; intros depth pos H;
+    [cbn [wfb] in H | cbn [wfb] in H | rewrite wfb_arr in H | rewrite wfb_struct in H | rewrite wfb_dict in H | cbn [wfb] in H];
+    apply andb_true_iff in H; destruct H as [Hd H]; unfold max_value_depth in Hd.
+  - cbn [height]. lia.
+  - cbn [height]. lia.
+  - apply andb_true_iff in H. destruct H as [_ Hws]. cbn [height]. fold (heights vs).
+    destruct vs as [|v0 vs']; [cbn [heights fold_right]; lia|].
+    pose proof (wfsb_heights le (v0 :: vs') (depth + 1) _ IH Hws ltac:(discriminate)). lia.
+  - apply andb_true_iff in H. destruct H as [_ Hws]. cbn [height]. fold (heights fs).
+    destruct fs as [|v0 fs']; [cbn [heights fold_right]; lia|].
+    pose proof (wfsb_heights le (v0 :: fs') (depth + 1) _ IH Hws ltac:(discriminate)). lia.
+  - apply andb_true_iff in H. destruct H as [_ Hws]. cbn [height].
+    pose proof (wfsb_heights le [k; x] (depth + 1) _ (Forall_cons k IHk (Forall_cons x IHx (Forall_nil _))) Hws ltac:(discriminate)) as Hh.
+    cbn [heights fold_right] in Hh. lia.
+  - apply andb_true_iff in H. destruct H as [_ Hwx]. specialize (IHx _ _ Hwx). cbn [height]. lia.
+Qed.
+
+(* ---- a sequence of top-level values (a message body) ------------------------------ *)
+Theorem dec_seq_encs le : forall vs pos rest, wfsb le vs 0 pos = true ->
+  dec_seq le (map ty_of_val vs) pos (encs le vs pos ++ rest) = Some (vs, pos + nlen (encs le vs pos), rest).
+Proof.
+  induction vs as [|x r IH]; intros pos rest Hw.
+  - cbn. rewrite N.add_0_r. reflexivity.
+  - cbn [wfsb] in Hw. apply andb_true_iff in Hw. destruct Hw as [Hwx Hwr].
+    cbn [map dec_seq encs]. rewrite <- app_assoc.
+    pose proof (wfb_height le x 0 pos Hwx) as Hh.
+    rewrite (dec_enc le x DEC_FUEL 0 pos _ Hwx) by (unfold DEC_FUEL; lia).
+    rewrite (IH _ rest Hwr). rewrite nlen_app. pos_eq. lia.
+Qed.
